@@ -9,7 +9,7 @@ import weakref
 
 import numpy as np
 
-from . import c05, core
+from . import c05, core, translate
 from .core import Outcome, PropertySpec
 
 from gemdat.caching import weak_lru_cache  # noqa: E402
@@ -17,7 +17,7 @@ from gemdat.jumps import Jumps  # noqa: E402
 from gemdat.metrics import TrajectoryMetrics  # noqa: E402
 
 PID = 'C20'
-MODULES = ['GProofs.C20']
+MODULES = ['GProofs.C20', 'GProofs.C20Gen']
 
 
 def lru_of(method):
@@ -380,6 +380,7 @@ SPEC = PropertySpec(
     modules=MODULES,
     run=run,
     replay=replay,
+    gen=translate.gen_for('FormulasC20'),
     classify=classify,
     rule=('random op sequences (create / call with 2-3 argument values / drop+gc, 70% of drops followed at once by a creation so that '
           'CPython reuses the address) on instrumented classes decorated with the real weak_lru_cache, cache sizes 1,2,4,8 (5-60 ops) '
